@@ -13,7 +13,7 @@ def run(tier, replay=None):
     if replay:
         return transport.replay(v, replay)
     v.assumptions = [
-        "datagram classes {valid, badlen, badserial, serial0, badcode, badproto, proto19, malformed, silence} are concretised by the farm from the seed (lengths {0,1,63,65,128,1024}, corrupted serial byte, other function code, protocol id {0x18,0x00,0xff,0x16}, non-decimal BCD nibble / boolean byte 2..255)",
+        "datagram classes {valid, badlen, badserial, serial0, badcode, badproto, proto19, malformed, silence} are concretised by the farm from the seed (lengths {0,1,63,65,128,1024} from the seed, and every length of {0,1,2,7,8,9,32,63,65,66,127,128,129,1023,1024,2047,2048,2049,4096} once per path in hand-made scripts, corrupted serial byte, other function code, protocol id {0x18,0x00,0xff,0x16}, non-decimal BCD nibble / boolean byte 2..255)",
         "Rig L: one tick = 40 ms (120 ms when a scenario is re-run), T = 3 ticks; scripted instants sit 0.22 / 0.45 tick inside a tick; a rejected scenario is reported only if it is rejected again in at least one of three isolated re-runs",
         "every call of a scenario on a shared fixed port has its own controller serial (a reply abandoned by a timed-out call could otherwise legitimately be taken by the next call - see DESIGN 4/C08 scope)",
     ]
@@ -26,8 +26,8 @@ def run(tier, replay=None):
     if tier == "thorough":
         groups += ["G_udp_fixed", "G_mixed_eph"]
     n = 36 if tier == "quick" else 400
-    total, drift, _ = transport.run_groups(v, groups, n)
+    total, drift, _ = transport.run_groups(v, groups, n, lengths=True)
     v.coverage["rule"] = ("behaviours of Transport.tla (TLC -simulate, %d per group) over all three delivery paths, controller answers of 1..2 datagrams from 8 classes + silence/refused/reset with delays 0..T, "
-                          "up to 2 strays from 5 classes injected by strangers into the call's source port; each replayed on real sockets and validated by Trace_Transport. distinct = scenarios" % n)
+                          "plus one hand-made behaviour per wrong length and path (wrong-length datagram, then the genuine reply); up to 2 strays from 5 classes injected by strangers into the call's source port; each replayed on real sockets and validated by Trace_Transport. distinct = scenarios" % n)
     v.coverage["checker_cmd"] = "tlc MC_Transport (3 exhaustive configs); tlc -simulate MC_TransportGen; tlc Trace_Transport (StateDeque)"
     return v.finish()
